@@ -64,7 +64,7 @@ func genC20(t *rapid.T) c20Case {
 		nops := rapid.IntRange(0, 6).Draw(t, "nops")
 		for j := 0; j < nops && !cc.Refused; j++ {
 			op := c20Op{
-				Kind:    rapid.SampledFrom([]string{"complete", "complete", "start", "start", "start", "continue", "continue", "even-first", "even-open", "replay", "badkey", "eof-mid", "eof", "read-error", "read-error-mid", "write-fails", "write-fails-open"}).Draw(t, "kind"),
+				Kind:    rapid.SampledFrom([]string{"complete", "complete", "start", "start", "start", "continue", "continue", "even-first", "even-open", "replay", "badkey", "eof-mid", "eof", "read-error", "read-error-mid", "write-fails", "write-fails-open", "start-at-255", "complete-at-255"}).Draw(t, "kind"),
 				Session: rapid.Uint32Range(1, 3).Draw(t, "session"),
 			}
 			cc.Ops = append(cc.Ops, op)
@@ -212,6 +212,11 @@ func runC20(t failer, c c20Case) (abandoned, rejected int) {
 				rejected++
 			case "eof":
 				st.conn.FeedEOF()
+			case "start-at-255", "complete-at-255":
+				// the last client sequence number: the reply would be numbered 256 and cannot be sent;
+				// with "start-" the handler nevertheless asks for a continuation
+				wire = pkt(255, op.Session+600, op.Kind == "start-at-255")
+				rejected++
 			case "read-error":
 				// the transport fails a read (connection reset) at a packet boundary
 				st.conn.FeedError(syscall.ECONNRESET)
